@@ -66,6 +66,49 @@ func protoKey(d *remoteexecution.Digest) string {
 	return casKey(d.Hash, d.SizeBytes)
 }
 
+// checkListedFile: "with the correct content digest". The digest d listed for
+// the produced file c has to be the sha256 of the file's bytes (for a file
+// that a fault rewrote in place during the upload: of its bytes before or
+// after), and the object stored in the CAS under d has to hash to d. Returns
+// an empty fingerprint when all of that holds.
+func checkListedFile(w *world, c *node, d *remoteexecution.Digest) (fp, msg string) {
+	h, sz := shaKey([]byte(c.data))
+	want := casKey(h, sz)
+	ok := d != nil && protoKey(d) == want
+	if !ok && d != nil && c.hasAlt {
+		ah, asz := shaKey([]byte(c.alt))
+		want += " or, before the in-place rewrite, " + casKey(ah, asz)
+		ok = protoKey(d) == casKey(ah, asz)
+	}
+	if !ok {
+		return "file-digest", fmt.Sprintf("listed digest %s, its bytes hash to %s", protoKey(d), want)
+	}
+	blob, present := w.cas.blobs[protoKey(d)]
+	if !present {
+		return "file-not-in-cas", fmt.Sprintf("digest %s is not in the CAS", protoKey(d))
+	}
+	if bh, bsz := shaKey(blob); casKey(bh, bsz) != protoKey(d) {
+		return "file-digest-not-of-stored-object", fmt.Sprintf("listed digest %s, but the object stored under that digest in the CAS is %q which hashes to %s", protoKey(d), blob, casKey(bh, bsz))
+	}
+	return "", ""
+}
+
+// casConsistent: every object in the CAS is stored under its own digest.
+func casConsistent(fail failFn, w *world) bool {
+	keys := make([]string, 0, len(w.cas.blobs))
+	for k := range w.cas.blobs {
+		keys = append(keys, k)
+	}
+	sort.Strings(keys)
+	for _, k := range keys {
+		if h, n := shaKey(w.cas.blobs[k]); casKey(h, n) != k {
+			fail("cas/blob-under-wrong-digest", "blob stored under %s hashes to %s", k, casKey(h, n))
+			return false
+		}
+	}
+	return true
+}
+
 // ---------------------------------------------------------------------------
 // Tree verification
 
@@ -201,13 +244,8 @@ func verifyTree(fail failFn, w *world, p string, dir *node, od *remoteexecution.
 				return false
 			}
 			seen[f.Name] = true
-			h, sz := shaKey([]byte(c.data))
-			if f.Digest == nil || f.Digest.Hash != h || f.Digest.SizeBytes != sz {
-				fail("tree/content/file-digest", "Tree of %q: file %s/%s has digest %s, bytes hash to %s", p, at, f.Name, protoKey(f.Digest), casKey(h, sz))
-				return false
-			}
-			if _, ok := w.cas.blobs[casKey(h, sz)]; !ok {
-				fail("tree/content/file-not-in-cas", "Tree of %q: file %s/%s digest %s is not in the CAS", p, at, f.Name, casKey(h, sz))
+			if fp, msg := checkListedFile(w, c, f.Digest); fp != "" {
+				fail("tree/content/"+fp, "Tree of %q: file %s/%s: %s", p, at, f.Name, msg)
 				return false
 			}
 			if f.IsExecutable != c.exec {
@@ -316,13 +354,8 @@ func verifyResult(fail failFn, w *world, wd string, declared []string, ar *remot
 			fail("result/file-kind", "ActionResult lists %q as a file, the produced tree has %s at its location", f.Path, n.dump())
 			return
 		}
-		h, sz := shaKey([]byte(n.data))
-		if f.Digest == nil || f.Digest.Hash != h || f.Digest.SizeBytes != sz {
-			fail("result/file-digest", "output file %q has digest %s, its bytes hash to %s", f.Path, protoKey(f.Digest), casKey(h, sz))
-			return
-		}
-		if _, ok := w.cas.blobs[casKey(h, sz)]; !ok {
-			fail("result/file-not-in-cas", "output file %q: digest %s is not in the CAS", f.Path, casKey(h, sz))
+		if fp, msg := checkListedFile(w, n, f.Digest); fp != "" {
+			fail("result/"+fp, "output file %q: %s", f.Path, msg)
 			return
 		}
 		if f.IsExecutable != n.exec {
